@@ -45,8 +45,13 @@ func TestC06(t *testing.T) {
 		mc := NewMachine("C06", sch, column.Options{Writer: multiLogger{ch, serial}})
 		defer mc.Close()
 		defer mc.Guard(t)
-		replica := newCollection(sch, column.Options{})
+		// the replica has a change stream of its own (chain replication): what it replays must be
+		// emitted again, so that a collection fed from the REPLICA's stream converges as well
+		ch2 := make(commit.Channel, 256)
+		replica := newCollection(sch, column.Options{Writer: ch2})
 		defer replica.Close()
+		tail := newCollection(sch, column.Options{})
+		defer tail.Close()
 		cfg := TxnCfg{Prop: "C06", MaxSteps: 10, Peeks: true, Rollback: true, Deletes: true, Inserts: true, Merges: true, OwnUpdates: true, KeyOps: true, Direct: true,
 			NoStoreOnDel: KFActive("f11-store-and-delete-same-txn"), NoOpAfterLenMerge: KFActive("f15-difflen-merge-reorder")}
 		replayed := 0
@@ -56,6 +61,11 @@ func TestC06(t *testing.T) {
 				case cm := <-ch:
 					if err := replica.Replay(cm); err != nil {
 						mc.fail(t, "Replay on the replica failed: %v", err)
+					}
+					for len(ch2) > 0 {
+						if err := tail.Replay(<-ch2); err != nil {
+							mc.fail(t, "Replay on the second-level replica failed: %v", err)
+						}
 					}
 					replayed++
 					continue
@@ -88,6 +98,9 @@ func TestC06(t *testing.T) {
 						if err := replica.CreateColumn(sch.Cols[i].Name, newColumn(sch.Cols[i])); err != nil {
 							mc.fail(t, "CreateColumn on the replica: %v", err)
 						}
+						if err := tail.CreateColumn(sch.Cols[i].Name, newColumn(sch.Cols[i])); err != nil {
+							mc.fail(t, "CreateColumn on the second-level replica: %v", err)
+						}
 					}
 				}
 			},
@@ -108,6 +121,19 @@ func TestC06(t *testing.T) {
 		mc.CheckFull(t, false)
 		mc.CheckIndexes(t, mc.C, "primary at the end", nil)
 		mc.CheckDerived(t, replica, "replica fed through commit.Channel", false)
+		{
+			// the second-level replica has no indexes: compare rows, values, keys and counts
+			got, cnt, err := extractRange(tail, mc.Sch, mc.M.ColLive, false)
+			if err != nil {
+				mc.fail(t, "second-level replica: full read: %v", err)
+			}
+			if d := mc.M.diffStates(got, "second-level replica (fed from the change stream the first replica emits while replaying)"); d != "" {
+				mc.fail(t, "%s", d)
+			}
+			if cnt != mc.M.Count() || tail.Count() != mc.M.Count() {
+				mc.fail(t, "second-level replica: txn.Count()=%d Count()=%d, model has %d rows", cnt, tail.Count(), mc.M.Count())
+			}
+		}
 
 		// second replica: everything through the serialized log, read back at the end
 		replica2 := newCollectionLive(sch, mc.M.ColLive, column.Options{})
